@@ -17,7 +17,7 @@ import (
 	"verifharness/gal"
 )
 
-const header = "From CSS Require Import Lib.Base Lib.Cases Model.Verdicts Model.VerdictsCases."
+const header = "From CSS Require Import Lib.Base Lib.Cases Model.Verdicts Model.VerdictsLCP Model.VerdictsCases."
 
 // fixed witnesses of the listed findings - the open ones and the repaired ones - re-run on the
 // real code every time: a witness of an open finding that reproduces is reported as known, one
@@ -159,6 +159,7 @@ func main() {
 	genNVAttr(c)
 	genNVIndex(c)
 	genLCP(c)
+	genLCPIndex(c)
 	genSinitTPM(c)
 	genME(c)
 	genValidateME(c)
